@@ -112,7 +112,7 @@ fn inbound_probe(w: &mut ItsWorld, id: &[u8; 32], token: &Address) -> Result<(),
 }
 
 pub fn run(ctx: &Ctx, rep: &mut Report) {
-    let total = ctx.universes(160, 6000);
+    let total = ctx.universes(960, 40000);
     let mut recipe_agree = 0u64;
     let mut recipe_differ = 0u64;
     for uni in ctx.my_universes(total) {
